@@ -80,7 +80,7 @@ CHECKS.update({
    text="All 28 pairs and 6 triples of short pool/codec/transcript operations are explored without schedule bound (time cap reported where hit); heavy calls (Commit, MSM, BatchNormalize, IPA/multiproof prove and verify) paired with short and heavy calls under a time cap; every call's output must equal its sequential output, no deadlock state, shared fingerprint unchanged; any race report of the -race pass is a violation.",
    note="Sequential consistency at visible operations; data races delegated to the race detector on the executions it observes; heavy pairs capped by wall clock."),
  "C13": dict(cat="model_checking", ref="§3 C13, §2.6",
-   technique="explicit-state search on the deep fingerprint (reflect/unsafe, ~350 MB of tables + all package variables) of everything shared and mutable; 26-call menu from every reachable state, all histories of depth 2/3 with result digests and a probe; every call of a 38-call menu repeated with its read-only arguments in mprotect'ed pages (any store into an input faults)",
+   technique="explicit-state search on the deep fingerprint (reflect/unsafe, ~350 MB of tables + all package variables) of everything shared and mutable; 26-call menu from every reachable state, all histories of depth 2/3 with result digests and a probe; every call of a 40-call menu repeated with its read-only arguments in mprotect'ed pages (any store into an input faults)",
    text="After every call the shared fingerprint equals the initial one (closed one-state transition system on a pure tree), every caller argument is bit-identical up to slice capacity (commitments may only be re-normalised), every call's result equals its fresh-state result at every position of every history of depth 2 (3 thorough), and a probe after each history is unchanged.",
    note="gnark-crypto internals are outside the fingerprint; menu arguments are fixed small inputs."),
  "C19": dict(cat="model_checking", ref="§3 C19",
@@ -99,8 +99,8 @@ def main():
         if i in CHECKS:
             c = dict(CHECKS[i])
             if i != "C13":
-                c["technique"] += "; plus, for pairs of this property's operations, a reduction-free caller-switch search: the default execution and every execution with one switch (thorough: two) to the other top-level caller at a scheduling point (sync, channel, pool, sync/atomic operations and post-release points), warm and — one fresh process per execution — for the first use"
-                c["text"] += " Two callers at once: every pair of the property's operations under every single caller switch (warm, and first use in fresh processes), each judged against the calls executed alone; the calls are also run with their read-only arguments in write-protected pages."
+                c["technique"] += "; plus, for pairs of this property's operations, a reduction-free caller-switch search: the default execution and every execution with one switch (thorough: two) to the other top-level caller at a scheduling point (sync, channel, pool, sync/atomic operations and post-release points), warm and — one fresh process per execution — for the first use; for calls that run worker goroutines, every single switch between the workers of one call at the variables they share"
+                c["text"] += " Two callers at once: every pair of the property's operations under every single caller switch (warm, and first use in fresh processes), each judged against the calls executed alone; honest calls are repeated after calls that ended with an error; the calls are also run with their read-only arguments in write-protected pages."
             checks.append({
                 "property_id": i,
                 "quick_cmd": f"./vrun {i} quick",
